@@ -300,6 +300,50 @@ fn after_redirect_cell(idx: u64, rec: &mut Rec) {
     }
 }
 
+/// Requests that carry no header at all and whose target gives no host to derive one from
+/// (origin-form, `*`): none of the classes to refuse, so they are accepted - and what is written is a
+/// complete head, request line and empty line.
+fn no_header_cell(idx: u64, rec: &mut Rec) {
+    use crate::core::{guarded, panic_sig};
+    use ureq_proto::http::{Request, Version};
+    let method = ["GET", "HEAD", "DELETE", "OPTIONS", "TRACE"][(idx % 5) as usize];
+    let target = ["/p", "/", "/a/b?x=1", "*"][(idx / 5 % 4) as usize];
+    let v10 = idx / 20 % 2 == 1 && matches!(method, "GET" | "HEAD");
+    let use_call = idx / 40 % 2 == 1;
+    if target == "*" && method != "OPTIONS" {
+        return;
+    }
+    let want = format!("{} {} HTTP/1.{}\r\n\r\n", method, target, if v10 { 0 } else { 1 });
+    let res = guarded(move || -> Result<(Vec<u8>, bool), String> {
+        let req = Request::builder().method(method).uri(target).version(if v10 { Version::HTTP_10 } else { Version::HTTP_11 }).body(()).unwrap();
+        let mut out = vec![0u8; 256];
+        if use_call {
+            let mut c = Call::without_body(req).map_err(|e| format!("{:?}", e))?;
+            let n = c.write(&mut out).map_err(|e| format!("write: {:?}", e))?;
+            Ok((out[..n].to_vec(), c.is_finished()))
+        } else {
+            let mut f = ureq_proto::client::flow::Flow::new(req).map_err(|e| format!("{:?}", e))?.proceed();
+            let n = f.write(&mut out).map_err(|e| format!("write: {:?}", e))?;
+            Ok((out[..n].to_vec(), f.can_proceed()))
+        }
+    });
+    rec.call();
+    let api = if use_call { "call-without-body" } else { "flow" };
+    match res {
+        Err((l, m)) => rec.fail(&format!("C17/{}", panic_sig(&l, &m)), format!("{} {} without any header ({}): panic {} at {}", method, target, api, m, l)),
+        Ok(Err(e)) => rec.fail("C17/valid-request-refused/no-header-request", format!("{} {} HTTP/1.{} without any header ({}): {}", method, target, if v10 { 0 } else { 1 }, api, e)),
+        Ok(Ok((bytes, ready))) => {
+            if bytes != want.as_bytes() || !ready {
+                return rec.fail(
+                    "C17/no-header-request-not-written-whole",
+                    format!("{} {} without any header ({}): wrote {:?} ready={}, a complete head is {:?}", method, target, api, crate::json::esc(&bytes), ready, want),
+                );
+            }
+            rec.cov(&format!("{}/accept/no-header-request", api));
+        }
+    }
+}
+
 impl Property for P {
     fn id(&self) -> &'static str {
         "C17"
@@ -317,12 +361,15 @@ impl Property for P {
     fn workloads(&self, _tier: Tier) -> Vec<Workload> {
         vec![
             Workload::new("table", 5 * 9 * 5 * 10 * 6 * 2 * 3, true, "the full product (cells with despite on a Call API are skipped)"),
+            Workload::new("no-header-requests", 80, true, "body-less methods x origin-form / asterisk targets x 1.0/1.1 x both APIs, no header at all"),
             Workload::new("after-redirect", 7 * 5 * 3 * 2 * 2, true, "requests created by following 1..2 redirects from requests that carried framing headers: all valid, all must be accepted"),
         ]
     }
     fn run_case(&self, wl: &str, idx: u64, _seed: u64, rec: &mut Rec) {
         if wl == "after-redirect" {
             after_redirect_cell(idx, rec)
+        } else if wl == "no-header-requests" {
+            no_header_cell(idx, rec)
         } else {
             cell(idx, rec)
         }
@@ -341,6 +388,8 @@ impl Property for P {
             ("call-with-body/accept/*".into(), 10),
             ("call-without-body/accept/*".into(), 10),
             ("after-redirect/POST->GET".into(), 10),
+            ("flow/accept/no-header-request".into(), 10),
+            ("call-without-body/accept/no-header-request".into(), 10),
             ("after-redirect/GET->GET".into(), 10),
         ]
     }
